@@ -50,4 +50,14 @@ CHECKS = {
         quick=dict(groups=[G("stateful", "^TestC06Stateful$", 300, 8)]),
         thorough=dict(groups=[G("stateful", "^TestC06Stateful$", 5000, 16)]),
     ),
+    "C04": dict(
+        title="Container registry matches the live set; deletion is complete and final",
+        quick=dict(groups=[G("stateful", "^TestC04Stateful$", 400, 8)]),
+        thorough=dict(groups=[G("stateful", "^TestC04Stateful$", 3000, 16)]),
+    ),
+    "C05": dict(
+        title="Container creation charges exactly the configured fee, atomically",
+        quick=dict(groups=[G("stateful", "^TestC05Stateful$", 300, 8)]),
+        thorough=dict(groups=[G("stateful", "^TestC05Stateful$", 4000, 16)]),
+    ),
 }
